@@ -44,3 +44,24 @@ def rstripC (c : Char) (s : Str) : Str := (s.reverse.dropWhile (· == c)).revers
 def lowerAscii (c : Char) : Char := if 'A' ≤ c ∧ c ≤ 'Z' then Char.ofNat (c.toNat + 32) else c
 
 end Pptx
+
+namespace Pptx
+
+/-- Python `re.split` on a single-character class: split at every character satisfying `p`;
+    always at least one piece. -/
+def splitOnP (p : Char → Bool) : Str → List Str
+  | [] => [[]]
+  | x :: xs =>
+    if p x then [] :: splitOnP p xs
+    else match splitOnP p xs with
+      | [] => [[x]]
+      | h :: t => (x :: h) :: t
+
+def hexDigitU (n : Nat) : Char :=
+  if n < 10 then Char.ofNat (48 + n) else Char.ofNat (55 + n)
+
+/-- `"%04X" % n` for `n < 65536` -/
+def hex4 (n : Nat) : Str :=
+  [hexDigitU (n / 4096 % 16), hexDigitU (n / 256 % 16), hexDigitU (n / 16 % 16), hexDigitU (n % 16)]
+
+end Pptx
